@@ -87,7 +87,7 @@ def classify(src, o, extra=None):
 
 
 INVALID_SNIPPETS = [
-    "x = (1 +\n\n\n 2) 3\n", "if a:\n    y = b if (c or\nd)\n", "if x:\n        print 'a' + (\n1)\n", "x = a if (b,\n c)\n", "f(a for a in (b,\n c), d)\n", "y = [b for b in (c,\nd) e]\n", "class A\n", "x = f(a, b) c\n", "x = {1: 2, (a, bbbbbbbbbbbbbbbbbbbbbbbbbbbbbbbbbbb)}\n", "d = {a: 1, (b, ccccccccccccccccccccccccccccc) 2}\n", "f(a, (b, cccccccccccccccccccccc) d)\n", "[a,\n\n b for b in c]\n", "f(a for a in b, c)\n", "x = 1 +\n", "def f(:\n  pass\n", "if x\n    y\n", "for x in:\n pass\n", "a = = b\n", "print 'x'\n", "x = [1, 2\ny = 3\n",
+    "x = (1 +\n\n\n 2) 3\n", "if a:\n    y = b if (c or\nd)\n", "def f():\n    if x:\ny = 1\n", "class A:\n    def g(s):\nz = 2\n", "for i in j:\n    while k:\n  m = 3\n", "if x:\n        print 'a' + (\n1)\n", "x = a if (b,\n c)\n", "f(a for a in (b,\n c), d)\n", "y = [b for b in (c,\nd) e]\n", "class A\n", "x = f(a, b) c\n", "x = {1: 2, (a, bbbbbbbbbbbbbbbbbbbbbbbbbbbbbbbbbbb)}\n", "d = {a: 1, (b, ccccccccccccccccccccccccccccc) 2}\n", "f(a, (b, cccccccccccccccccccccc) d)\n", "[a,\n\n b for b in c]\n", "f(a for a in b, c)\n", "x = 1 +\n", "def f(:\n  pass\n", "if x\n    y\n", "for x in:\n pass\n", "a = = b\n", "print 'x'\n", "x = [1, 2\ny = 3\n",
     "class A\n    pass\n", "import\n", "from . import\n", "f(**a, *b)\n", "f(a=1, b)\n", "(a, b) += 1\n", "a + 1 = 2\n", "del f()\n", "for f() in x: pass\n", "with a as 1: pass\n", "x = {1: 2, 3}\n",
     "lambda x=1, y: 0\n", "def f(a=1, b): pass\n", "def f(*): pass\n", "def f(**k, a): pass\n", "try:\n    pass\n", "try:\n  pass\nexcept A, B:\n  pass\n", "else:\n  pass\n", "x = 'abc\n", "if a:\npass\n",
     "  x = 1\n", "if a:\n    b\n  c\n", "while True:\n\tx\n        y\n", "a ? b\n", "$(\n", "x = $\n", "f!(]\n", "f!(a) b\n", "with! a\n", "x = `abc\n", "match x:\n    case 1 | y | 2: pass\n", "match x:\n  case [a, *b, *c]: pass\n",
@@ -127,6 +127,8 @@ def build_inputs(tier):
         cases.append(("table", "ok = 1\n\n" + s, "exec", None))
         cases.append(("table", s + "\nlater = 2\n", "exec", None))
     # eval mode with leading blanks: positions and text must describe the caller's text, not a stripped copy
+    for e in ["", "#c", "\n", " ", "\t\n"]:
+        cases.append(("eval-empty", e, "eval", None))
     for e in ["1 +", "f(a for a in b, c)", "(a b)", "x = 1", "a if b", "[1, 2", "lambda: (yield", "'abc"]:
         for lead in [" ", "   ", "\t\t", " \t "]:
             cases.append(("eval-lead", lead + e, "eval", None))
